@@ -31,6 +31,7 @@ func init() {
 			ruleC01R2(r, cut) // registered under id R2: every cut, whatever triggered it, resets the size the policy is asked about
 			ruleC20P7(r)
 			ruleOptionSetters(r, "P8", "upstream_options.go")
+			ruleC20P9(r)
 			r.borrow("C01", func() { ruleC01R8(r) }) // the send buffer owns its slices (a snapshot of buffered points must not change under the caller)
 		},
 	})
@@ -542,4 +543,55 @@ func firstReturnFromAny(b *ssa.BasicBlock) *ssa.Return {
 		b = b.Succs[0]
 	}
 	return nil
+}
+
+// ruleC20P9: a snapshot has as many elements as what it copies. A slice made with the capacity of its source as its
+// length carries the spare room of the source's backing array as zero elements — points nobody wrote.
+func ruleC20P9(r *Run) {
+	r.Begin("P9", "snapshots do not invent elements: in package iscp no slice is made with a length taken from cap() of another slice (a copy is sized by len; spare capacity belongs in make's third argument)", 1)
+	p := r.P
+	n := 0
+	for _, fn := range p.Funcs {
+		if fnPkgPath(fn) != modPath+"/iscp" || fn.Blocks == nil {
+			continue
+		}
+		name := fnName(fn)
+		k := 0
+		allInstrs(fn, func(ins ssa.Instruction) {
+			mk, ok := ins.(*ssa.MakeSlice)
+			if !ok {
+				return
+			}
+			if _, isK := mk.Len.(*ssa.Const); isK {
+				return
+			}
+			k++
+			n++
+			fromCap := false
+			var walk func(v ssa.Value, d int)
+			walk = func(v ssa.Value, d int) {
+				if d > 4 {
+					return
+				}
+				switch x := v.(type) {
+				case *ssa.Call:
+					if b, isB := x.Call.Value.(*ssa.Builtin); isB && b.Name() == "cap" {
+						fromCap = true
+					}
+				case *ssa.Convert:
+					walk(x.X, d+1)
+				case *ssa.BinOp:
+					walk(x.X, d+1)
+					walk(x.Y, d+1)
+				case *ssa.Phi:
+					for _, e := range x.Edges {
+						walk(e, d+1)
+					}
+				}
+			}
+			walk(mk.Len, 0)
+			r.Check(fmt.Sprintf("%s make#%d sized by len", name, k), !fromCap, posOf(p, mk), name, "the length of the new slice is the capacity of another one: the copy carries zero elements for the unused room of the source's backing array")
+		})
+	}
+	r.Stat("sized_makes", n)
 }
